@@ -1,35 +1,42 @@
 (* C08 — the property, clause by clause.  Only statements; every proof is `exact lemma`.
-   Every theorem is for EVERY class table t that is well-formed (Spec.wf: closed, acyclic, a
-   method name is static everywhere or nowhere) and every declared class n of the object. *)
+   The subtype theorems are for EVERY class table that is closed and acyclic; the dispatch theorems also
+   need `kinds_ok` (a method name is static everywhere or nowhere; Spec.wf = closed && acyclic && kinds_ok):
+   tables in which a subclass redeclares a static name as an instance method are outside them. *)
 From V.C08 Require Import Model Spec ProofsIface ProofsClass ProofsDispatch ProofsDecl PropLemmas.
 
 (* "T is the object's class, one of its ancestors, or an interface reachable through
    implements/extends edges": the three separate subtype walks all decide exactly that relation *)
-Theorem class_is_reach : forall t n c T, wf t = true -> get_class t n = Some c ->
+Theorem class_is_reach : forall t n c T, closed t = true -> acyclic t = true -> get_class t n = Some c ->
   exists b, class_is t T n c = Ok b /\ (b = true <-> is_a t n T).            (* T-typed parameter; catch via ThrowValue *)
 Proof. exact class_is_reach_l. Qed.
 Print Assumptions class_is_reach.
 
-Theorem this_is_reach : forall t n c T, wf t = true -> get_class t n = Some c ->
+Theorem this_is_reach : forall t n c T, closed t = true -> acyclic t = true -> get_class t n = Some c ->
   exists b, this_is t T n c = Ok b /\ (b = true <-> is_a t n T).             (* the same for a $this value *)
 Proof. exact this_is_reach_l. Qed.
 Print Assumptions this_is_reach.
 
-Theorem check_class_is_reach : forall t n c T, wf t = true -> get_class t n = Some c ->
+Theorem check_class_is_reach : forall t n c T, closed t = true -> acyclic t = true -> get_class t n = Some c ->
   exists b, instanceof t n c T = Ok b /\ (b = true <-> is_a t n T).          (* $o instanceof T *)
 Proof. exact instanceof_reach_l. Qed.
 Print Assumptions check_class_is_reach.
 
-Theorem catch_reach : forall t n c T, wf t = true -> get_class t n = Some c -> T <> "Throwable" ->
+Theorem catch_reach : forall t n c T, closed t = true -> acyclic t = true -> get_class t n = Some c -> T <> "Throwable" ->
   exists b, catch_matches t T n c = Ok b /\ (b = true <-> is_a t n T).       (* catch (T $e) *)
 Proof. exact catch_reach_l. Qed.
 Print Assumptions catch_reach.
 (* catch (Throwable) additionally matches everything that is an Exception or an Error *)
-Theorem catch_throwable : forall t n c, wf t = true -> get_class t n = Some c ->
+Theorem catch_throwable : forall t n c, closed t = true -> acyclic t = true -> get_class t n = Some c ->
   exists b, catch_matches t "Throwable" n c = Ok b /\
             (b = true <-> is_a t n "Throwable" \/ is_a t n "Exception" \/ is_a t n "Error").
 Proof. exact catch_throwable_l. Qed.
 Print Assumptions catch_throwable.
+
+(* catch (T1 | T2 $e) *)
+Theorem catch_union_reach : forall t n c T1 T2, closed t = true -> acyclic t = true -> get_class t n = Some c ->
+  exists b, catch_union t T1 T2 n c = Ok b /\ (b = true <-> is_a t n T1 \/ is_a t n T2).
+Proof. exact catch_union_l. Qed.
+Print Assumptions catch_union_reach.
 
 (* the BFS of interfaceExtends never runs out of its fuel and decides interface reachability on
    EVERY table — cyclic interface graphs included, no hypothesis *)
@@ -39,7 +46,7 @@ Proof. exact interface_extends_ok. Qed.
 Print Assumptions bfs_fuel_suffices.
 
 (* the computed relation used as the oracle in the correspondence check is the inductive one *)
-Theorem is_ab_is_a : forall t n c T, wf t = true -> get_class t n = Some c ->
+Theorem is_ab_is_a : forall t n c T, closed t = true -> acyclic t = true -> get_class t n = Some c ->
   (is_ab t n T = true <-> is_a t n T).
 Proof. exact is_ab_is_a_w. Qed.
 Print Assumptions is_ab_is_a.
@@ -95,6 +102,24 @@ Theorem parent_after_parent_call : forall t r c f g h d p e p', wf t = true -> g
   via_parent_parent t r f g h = Ok (resolve t p' h).
 Proof. exact parent_then_parent_l. Qed.
 Print Assumptions parent_after_parent_call.
+
+(* static entry points: C::f() called from outside any class, f found in d.  Inside that body self::s() resolves
+   from d, static::s() from the NAMED class C (late static binding), parent::g() from the parent of d *)
+Theorem static_entry_self : forall t c cc f s, closed t = true -> acyclic t = true -> get_class t c = Some cc ->
+  static_name t f = true -> static_name t s = true ->
+  via_sentry_self t c f s = Ok (match resolve t c f with Some d => resolve t d s | None => None end).
+Proof. exact sentry_self_l. Qed.
+Theorem static_entry_static : forall t c cc f s, closed t = true -> acyclic t = true -> get_class t c = Some cc ->
+  static_name t f = true -> static_name t s = true ->
+  via_sentry_static t c f s = Ok (match resolve t c f with Some _ => resolve t c s | None => None end).
+Proof. exact sentry_static_l. Qed.
+Theorem static_entry_parent : forall t c cc f g d p, closed t = true -> acyclic t = true -> get_class t c = Some cc ->
+  static_name t f = true -> resolve t c f = Some d -> parent_of t d = Some p ->
+  via_sentry_parent t c f g = Ok (resolve t p g).
+Proof. exact sentry_parent_l. Qed.
+Print Assumptions static_entry_self.
+Print Assumptions static_entry_static.
+Print Assumptions static_entry_parent.
 
 (* "$o like T holds exactly when the object provides, itself or by inheritance, every method T
    declares with the same number of parameters" (after fix d3e2cea) *)
